@@ -463,6 +463,36 @@ def drv_c09(tier, rng):
     histories: the same request again after other requests must be answered identically"""
     P = pipeline.PU
     groups = []
+    # default-reliant request / the same component with every option set explicitly / default-reliant request again:
+    # options decoded into shared templates or prototypes would leak from the explicit request into the next one
+    EXPLICIT = {
+        'criteriaOmission': ({'ratio': P // 2}, {'ratio': P // 4, 'min': 1, 'max': 2, 'ordering': 'strongest', 'randomSeed': 9}),
+        'preferenceReversal': ({'ratio': P // 2}, {'ratio': P, 'min': 1, 'max': 3, 'ordering': 'random', 'randomSeed': 9}),
+        'fatigue': ({'function': 'expFromZero', 'params': {'alpha': P // 10}, 'randomSeed': 4},
+                    {'function': 'expFromZero', 'params': {'alpha': P // 10, 'multiplier': 2 * P, 'queryNumber': 7}, 'randomSeed': 5,
+                     'allowedValuesRangeScaling': P // 2, 'disallowNegativeValues': True}),
+        'criteriaConcealment': ({'randomSeed': 4}, {'randomSeed': 5, 'newCriterionScaling': 2 * P, 'referenceCriterionType': 'importanceRatio',
+                                                    'newCriterionImportance': P, 'allowedValuesRangeScaling': P // 2, 'disallowNegativeValues': True}),
+        'criteriaMixing': ({'randomSeed': 4}, {'randomSeed': 5, 'mixingRatio': P // 4, 'referenceCriterionType': 'importanceRatio', 'newCriterionImportance': P}),
+    }
+    for mth in (pipeline.METHODS if tier == 'thorough' else rng.sample(pipeline.METHODS, 3)):
+        base = pipeline.gen_data(rng, mth, n=3, m=4, extra=1)
+        for nm, (dflt, expl) in EXPLICIT.items():
+            a = copy.deepcopy(base)
+            a['biases'] = [{'name': nm, 'props': copy.deepcopy(dflt)}]
+            b = copy.deepcopy(base)
+            b['biases'] = [{'name': nm, 'props': copy.deepcopy(expl)}]
+            groups.append([pcase(x, via='lib', failprop='C09', group={'id': 'x', 'rel': 'samereq', 'p': 'C09'}) for x in (a, b, copy.deepcopy(a))])
+        for inl in (True, False):       # anchoring: minimal applier parameters vs everything set
+            a = copy.deepcopy(base)
+            ab = pipeline.gen_bias(rng, 'anchoring', a, 4)
+            ab['props']['applier'] = {'function': 'inline' if inl else 'newCriterion', 'params': {}}
+            a['biases'] = [ab]
+            b = copy.deepcopy(a)
+            b['biases'][0]['props']['applier']['params'] = ({'applyOnNotConsidered': True, 'allowedValuesRangeScaling': P // 2, 'disallowNegativeValues': True} if inl else
+                                                             {'randomSeed': 8, 'referenceCriterionType': 'importanceRatio', 'newCriterionImportance': P,
+                                                              'allowedValuesRangeScaling': P // 2, 'disallowNegativeValues': True})
+            groups.append([pcase(x, via='lib', failprop='C09', group={'id': 'x', 'rel': 'samereq', 'p': 'C09'}) for x in (a, b, copy.deepcopy(a))])
     # (these come first: a component polluted by an error path stays polluted for the rest of the process, so only the
     # first sandwich of a kind can show the difference)
     # error paths: every kind of rejected request, sandwiched between two copies of a valid request that exercises the
